@@ -7,6 +7,7 @@ import random
 import re
 import tokenize
 
+import c08_blocks as blks
 import c08_literals as lits
 import corpus
 import util
@@ -21,6 +22,7 @@ THEOREMS = [
     'Pfst.C08.comment_put_refuses', 'Pfst.C08.comment_put_one_line',
     'Pfst.C08.reindent_roundtrip', 'Pfst.C08.indentBlock_fixed', 'Pfst.C08.bytes_never_indentable',
     'Pfst.C08.strict_only_first',
+    'Pfst.C08.header_untouched', 'Pfst.C08.toElif_sound', 'Pfst.C08.toElif_complete',
     'Pfst.C08.put_back', 'Pfst.C08.put_copy', 'Pfst.C08.replace_self',
 ]
 RULE = ('(a) repr_str_multiline on ALL strings over the 12-character alphabet {\' " \\ LF TAB CR NUL a SPACE e-acute NBSP '
@@ -37,6 +39,13 @@ RULE = ('(a) repr_str_multiline on ALL strings over the 12-character alphabet {\
         'middle / last in def, class, if, try and nested blocks; continuation lines indented not at all / less / as / more '
         'than the block): own_src, copy, cut + put back, replace-by-copy of the statement and of every enclosing statement, '
         'literal values compared through CPython (only docstring text may differ), pieces must be what their source denotes; '
+        'a deterministic product over every statement position of every block kind (else blocks of if / for / while / try with '
+        '1-3 statements whose moved statement is an if, elif chains, handlers, finally; top level and inside a def): the '
+        'statement put back onto itself as copy / copy().src / own_src() / pure AST via replace / put / put_slice / view '
+        'assignment / cut + put, elif_ default / True / False, judged by ast.parse of the new source, ast.dump and the full '
+        'reparse; read accessors (own_src / own_lines with docstr None / True / False / strict, whole=False, get_docstr, '
+        'get_line_comment, copy().src) called in all 24 orders and rotations on ONE unmodified node under rotating '
+        'FST.options(docstr=...) defaults, each answer = the answer of a fresh tree under the same effective options; '
         '_get_indentable_lns / _indent_lns / _dedent_lns vs the Lean predicate on these and on corpus programs. distinct = distinct (operation, input); '
         'non-trivial = the written text needs quoting/escaping decisions or the operation changes the source')
 TRUSTED = [
@@ -761,6 +770,10 @@ def _struct_case(arg):
                     kind, fc = _diff_class(d1, d0, kind, src)
                     r = (fc, util.first_diff(d1, d0) + ' new source: ' + root.src[:300])
                     break
+                d = util.tree_equals_parse(root)
+                if d:
+                    r = ('tree!=parse', d[:300] + ' new source: ' + root.src[:300])
+                    break
                 f = root.child_from_path(path)
                 if not f:
                     r = ('path-lost', 'node no longer at its path')
@@ -807,6 +820,15 @@ def _struct_case(arg):
                 if d1 != d0:
                     kind, fc = _diff_class(d1, d0, kind, src)
                     r = (fc, util.first_diff(d1, d0) + ' new source: ' + root.src[:300])
+                    break
+                d = util.tree_equals_parse(root)
+                if d:
+                    if d.startswith('source no longer parses') and root.src.rstrip(' \t\n').endswith('\\'):
+                        # a line continuation left dangling at the very end of the source (class of its own, any list)
+                        kind, d = 'list-tail', 'eof-backslash ' + d
+                        r = ('eof-backslash', d[:300] + ' new source: ' + root.src[-200:])
+                    else:
+                        r = ('tree!=parse', d[:300] + ' new source: ' + root.src[:300])
                     break
                 f = root.child_from_path(path) if path else root
             out.append((mode, kind, r[0] if r else None, r[1] if r else '', w))
@@ -1054,6 +1076,208 @@ def _sweep_literals(ctx, progs):
     ctx.notes['literal_refused'] = ref
 
 
+# ---- take-out / put-back at every statement position of every block kind (deterministic product) ----------------------
+
+def _blk_code(f, form):
+    if form == 'copy':
+        return f.copy()
+    if form == 'src':
+        return f.copy().src
+    if form == 'own_src':
+        return f.own_src()
+    return f.copy_ast()
+
+
+def _blk_one(src, path, field, idx, form, via, elif_, d0):
+    """put the statement at (path, field, idx) back onto itself; returns (failure (class, detail) | None, observation)"""
+    from fst import FST
+    root = _mk(src)
+    parent = _de_path(root, path)
+    f = getattr(parent.a, field)[idx].f
+    opts = {} if elif_ is None else {'elif_': elif_}
+    obs = None
+    try:
+        if via == 'cut':
+            piece = f.cut()
+            parent.put_slice(piece, idx, idx, field, one=True, **opts)
+        else:
+            code = _blk_code(f, form)
+            if via == 'replace':
+                f.replace(code, **opts)
+            elif via == 'put':
+                parent.put(code, idx, field, **opts)
+            elif via == 'put_slice':
+                parent.put_slice(code, idx, idx + 1, field, one=True, **opts)
+            else:
+                with FST.options(**opts):
+                    getattr(parent, field)[idx] = code
+    except Exception as ex:
+        nm = type(ex).__name__
+        return (('refused', str(ex)[:120]) if nm in REFUSALS else ('crash:' + nm, str(ex)[:200])), None
+    first = getattr(parent.a, field)[0]
+    obs = bool(isinstance(first, ast.If) and field == 'orelse' and isinstance(parent.a, ast.If) and first.f.is_elif())
+    new = root.src
+    try:
+        d2 = ast.dump(ast.parse(new))
+    except SyntaxError as e:
+        return ('unparsable', f'{e.msg} line {e.lineno}; new source: {new[:300]!r}'), obs
+    if d2 != d0:
+        return ('parse-differs', util.first_diff(d2, d0) + f' new source: {new[:300]!r}'), obs
+    d1 = ast.dump(root.a)
+    if d1 != d0:
+        return ('dump-differs', util.first_diff(d1, d0)), obs
+    d = util.tree_equals_parse(root)
+    if d:
+        return ('tree!=parse', d[:300]), obs
+    return None, obs
+
+
+def _blk_case(arg):
+    meta, src = arg
+    out = []       # (via, form, kind, failure|None|'refused', detail, witness, corr-record|None)
+    d0 = ast.dump(ast.parse(src))
+    root = _mk(src)
+    for path, field, idx, n, pkind, skind in blks.positions(src):
+        is_if = skind == 'If'
+        elifs = (None, True, False) if (field == 'orelse' or is_if) else (None,)
+        parent = _de_path(root, path)
+        old_elif = bool(field == 'orelse' and pkind == 'If' and n == 1 and is_if and getattr(parent.a, field)[0].f.is_elif())
+        combos = [(form, via) for form in blks.FORMS for via in blks.VIAS] + [('copy', 'cut')]
+        for elif_ in elifs:
+            for form, via in combos:
+                w = {'op': 'blk', 'src': src, 'path': path, 'field': field, 'idx': idx, 'form': form, 'via': via, 'elif_': elif_}
+                r, obs = _blk_one(src, path, field, idx, form, via, elif_, d0)
+                corr = None
+                if obs is not None and via in ('put_slice', 'replace'):
+                    corr = ([int(idx > 0), int(idx < n - 1), int(field == 'orelse'), int(pkind == 'If'),
+                             int(True if elif_ is None else elif_), int(old_elif), 1, int(is_if)], obs)
+                out.append((via, form, f'{pkind}.{field}', r[0] if r else None, r[1] if r else '', w, corr))
+    return out
+
+
+def _sweep_blocks(ctx, progs):
+    name = 'else/elif header after a statement replacement vs Pfst.PutBack.elifDecision'
+    n = ref = 0
+    items, observed, wits = [], [], []
+    for lst in pmap(_blk_case, progs):
+        for via, form, kind, r, detail, w, corr in lst:
+            n += 1
+            ctx.count('blk:' + repr(w), True)
+            ctx.tally('block_position', kind)
+            if corr is not None:
+                items.append(corr[0])
+                observed.append(corr[1])
+                wits.append(w)
+            if r == 'refused':
+                ref += 1
+            elif r:
+                ctx.fail(f'C08|blk-{via}-{form}|{kind}|{r}',
+                         f'statement {w["idx"]} of {kind} put back onto itself ({form} via {via}, elif_={w["elif_"]}): {r}: {detail}', w)
+    ctx.notes['block_roundtrips'] = n
+    ctx.notes['block_refused'] = ref
+    outs = _batched(ctx, name, 'C08.elif', 'items', items)
+    if outs is not None:
+        bad = 0
+        for it, ob, w, mo in zip(items, observed, wits, outs):
+            ctx.corr_cases += 1
+            if (mo == 1) != ob:
+                bad += 1
+                _disagree(ctx, name, {k: v for k, v in w.items()}, {'first statement of the block is an elif afterwards': ob},
+                          {'decision': ['keep', 'toElif', 'toElse'][mo] if isinstance(mo, int) else mo, 'features': it})
+        ctx.tally('correspondence_cases', name)
+        ctx.dist['correspondence_cases'][name] = len(items)
+        if bad:
+            ctx.brk('correspondence', name, f'{bad}/{len(items)} differ; first: ' + repr(_FIRST.get(name))[:1000])
+
+
+# ---- read accessors: every answer is independent of earlier reads and equals the answer of a fresh tree --------------
+
+_ACC_CTX = [{}, {'docstr': False}, {'docstr': 'strict'}, {'docstr': True}]
+_OWN = [('own_src', None), ('own_src', True), ('own_src', False), ('own_src', 'strict')]
+_OTHER = [('own_lines', None), ('own_lines', False), ('get_docstr',), ('get_line_comment', False),
+          ('get_line_comment', True), ('copy_src',), ('own_src_whole_false',)]
+
+
+def _acc_call(f, acc):
+    nm = acc[0]
+    try:
+        if nm == 'own_src':
+            return f.own_src() if acc[1] is None else f.own_src(docstr=acc[1])
+        if nm == 'own_lines':
+            return list(map(str, f.own_lines() if acc[1] is None else f.own_lines(docstr=acc[1])))
+        if nm == 'get_docstr':
+            return f.get_docstr()
+        if nm == 'get_line_comment':
+            return f.get_line_comment(full=acc[1])
+        if nm == 'copy_src':
+            return f.copy().src
+        if nm == 'own_src_whole_false':
+            return f.own_src(whole=False)
+    except Exception as e:
+        return f'<{type(e).__name__}>'
+    raise ValueError(nm)
+
+
+def _acc_seq(src, path, seq):
+    """run a sequence of (accessor, ctx index) on ONE tree; returns the answers"""
+    from fst import FST
+    root = _mk(src)
+    f = _de_path(root, path) if path else root
+    out = []
+    for acc, ci in seq:
+        with FST.options(**_ACC_CTX[ci]):
+            out.append(_acc_call(f, tuple(acc)))
+    return out
+
+
+def _acc_case(arg):
+    src, paths = arg
+    out = []
+    perms = list(itertools.permutations(range(4)))
+    for path in paths:
+        accs = _OWN + _OTHER
+        ref = {}
+        for ai, acc in enumerate(accs):
+            for ci in range(len(_ACC_CTX)):
+                ref[(ai, ci)] = _acc_seq(src, path, [(acc, ci)])[0]
+        seqs = []
+        for pm in perms:                       # all orders of the four own_src(docstr=...) calls, contexts rotating
+            for shift in range(4):
+                seqs.append([(pm[j], (j + shift) % 4) for j in range(4)])
+        for rot in range(len(accs)):           # all accessors, rotated starting points, contexts rotating
+            seqs.append([((rot + j) % len(accs), (j + rot) % 4) for j in range(len(accs))])
+            seqs.append([((rot - j) % len(accs), (j * 3 + rot) % 4) for j in range(len(accs))])
+        bad = None
+        ncalls = 0
+        for sq in seqs:
+            ans = _acc_seq(src, path, [(accs[ai], ci) for ai, ci in sq])
+            ncalls += len(sq)
+            for j, ((ai, ci), a) in enumerate(zip(sq, ans)):
+                if a != ref[(ai, ci)]:
+                    bad = (accs[ai], {'op': 'acc', 'src': src, 'path': path,
+                                      'seq': [[list(accs[x]), c] for x, c in sq[:j + 1]]},
+                           f'call {j} = {accs[ai]} under options {_ACC_CTX[ci]} after {[accs[x] for x, _ in sq[:j]]} answered '
+                           f'{a!r:.200}, a fresh tree answers {ref[(ai, ci)]!r:.200}')
+                    break
+            if bad:
+                break
+        out.append((ncalls, bad))
+    return out
+
+
+def _sweep_accessors(ctx, progs):
+    n = 0
+    for lst in pmap(_acc_case, progs):
+        for ncalls, bad in lst:
+            n += ncalls
+            ctx.count('acc:' + repr(bad[1] if bad else n), True, n=1)
+            if bad:
+                acc, w, what = bad
+                ctx.fail(f'C08|accessor-order|{acc[0]}|differs-from-fresh', what, w)
+    ctx.evaluations += n
+    ctx.notes['accessor_calls_in_sequences'] = n
+
+
 def _programs(ctx, n, stdlib):
     rng = random.Random(ctx.rng.random())
     return corpus.programs(rng, n, stdlib=stdlib)
@@ -1069,7 +1293,12 @@ def sweep(ctx):
     _sweep_doc(ctx, strs, extra)
     lp = lits.programs()
     _sweep_literals(ctx, rng.sample(lp, 700) if q else lp)
-    progs = _programs(ctx, 250 if q else 2500, 20 if q else 200)
+    _sweep_blocks(ctx, blks.programs())
+    docp = [(m, s) for m, s in lp if not m['bytes'] and m['form'].startswith('triple')]
+    accp = [(s, lits.target_paths(m)) for m, s in docp] + \
+        [(s, [p + [[f_, i]] for p, f_, i, _, _, _ in blks.positions(s)][:4]) for _, s in blks.programs()[::7]]
+    _sweep_accessors(ctx, accp if not q else rng.sample(accp, 120))
+    progs = _programs(ctx, 250 if q else 2500, 20 if q else 200) + corpus.hard_snippets()
     _sweep_comments(ctx, progs, 8 if q else 12)
     _sweep_struct(ctx, progs, 8 if q else 12)
 
@@ -1088,6 +1317,7 @@ def search(ctx):
     strs = hint_strs + _fragment_strings(4) + _all_strings(4) + _random_strings(rng, 6000, lo=1, hi=80)
     _sweep_doc(ctx, [], strs[:16000])
     if not ctx.failures:
+        _sweep_blocks(ctx, blks.programs())
         _sweep_literals(ctx, lits.programs())
     if not ctx.failures:
         progs = _programs(ctx, 1200, 100)
@@ -1124,6 +1354,18 @@ def replay(ctx, data):
         r = _doc_one(w['host'], w['s'])
         if r:
             ctx.fail('replay', f'{r[0]}: {r[1]}', w)
+        return
+    if op == 'blk':
+        r, _ = _blk_one(w['src'], w['path'], w['field'], w['idx'], w['form'], w['via'], w['elif_'], ast.dump(ast.parse(w['src'])))
+        if r and r[0] != 'refused':
+            ctx.fail('replay', f'{r[0]}: {r[1]}', w)
+        return
+    if op == 'acc':
+        seq = [(tuple(a), c) for a, c in w['seq']]
+        ans = _acc_seq(w['src'], w['path'], seq)
+        fresh = _acc_seq(w['src'], w['path'], seq[-1:])
+        if ans[-1] != fresh[0]:
+            ctx.fail('replay', f'last call of the sequence answers {ans[-1]!r:.200}, a fresh tree {fresh[0]!r:.200}', w)
         return
     if op.startswith('lit-'):
         kind, r = _lit_one(w['src'], w['path'], op[4:], w.get('lk', 'Expr-str'), ast.dump(_mk(w['src']).a))
